@@ -165,7 +165,14 @@ func writeCmd(r *rand.Rand, id string, big bool) (string, [][]byte) {
 		}
 		return s
 	}
-	switch r.Intn(27) {
+	switch r.Intn(30) {
+	case 27:
+		// single key that is not the first argument
+		return names("xgroup"), [][]byte{[]byte("CREATE"), k, idv(), []byte("$"), []byte("MKSTREAM")}
+	case 28:
+		return names("evalsha"), [][]byte{[]byte("0123456789abcdef0123456789abcdef01234567"), []byte("1"), k, idv()}
+	case 29:
+		return names("xgroup"), [][]byte{[]byte("SETID"), k, idv(), []byte("0-0")}
 	case 0, 1, 2:
 		return names("set"), [][]byte{k, idv()}
 	case 3:
@@ -254,13 +261,17 @@ func GenStream(r *rand.Rand, o StreamOptions) *Stream {
 			default:
 				p := o.BlackPrefix[r.Intn(len(o.BlackPrefix))]
 				key := []byte(p + strconv.Itoa(r.Intn(5)))
-				switch r.Intn(3) {
+				switch r.Intn(5) {
 				case 0:
 					add(KCfgOut, "set", [][]byte{key, []byte(id)}, id, g)
 				case 1:
 					add(KCfgOut, "HSET", [][]byte{key, []byte("f"), []byte(id)}, id, g)
-				default:
+				case 2:
 					add(KCfgOut, "rpush", [][]byte{key, []byte(id)}, id, g)
+				case 3: // the configured-out key is not the first argument
+					add(KCfgOut, "xgroup", [][]byte{[]byte("CREATE"), key, []byte(id), []byte("$")}, id, g)
+				default:
+					add(KCfgOut, "EVALSHA", [][]byte{[]byte("0123456789abcdef0123456789abcdef01234567"), []byte("1"), key, []byte(id)}, id, g)
 				}
 			}
 			return
